@@ -230,7 +230,9 @@ def vary_strings(rng, spec, hostile=True):
         n = len(spec[1])
         if n == 0:
             return ["s", ""]
-        alphabet = "<>&\"'ab=/ " if hostile else "abcxyz"
+        # no apostrophe: repr() of a str holding both quote kinds is longer, which would change the
+        # *length* of str(list) / str(dict) values (lengths must stay equal in the comparison)
+        alphabet = "<>&\"ab=/ " if hostile else "abcxyz"
         return ["s", "".join(rng.choice(alphabet) for _ in range(n))]
     if k == "l":
         return ["l", [vary_strings(rng, x, hostile) for x in spec[1]]]
@@ -315,13 +317,15 @@ def gen_expr(rng, sc, want=None, depth=0, py=None):
         alts = [gen_path(rng, sc, want) for _ in range(rng.choice([2, 2, 3]))]
         if rng.random() < 0.5:
             last = rng.choice(["nothing", "default", "string:alt<&>", "string:", "not:nope", "exists:s1"])
+            if py and rng.random() < 0.4:
+                last = "python:" + rng.choice(py)
             alts.append(last)
         sep = rng.choice(["|", " | ", "| "])
         return sep.join(alts)
     if r < 0.74:
         return "exists:" + rng.choice(["", " "]) + gen_path(rng, sc, want)
     if r < 0.82:
-        return "not:" + rng.choice(["", " "]) + gen_expr(rng, sc, want, depth + 1)
+        return "not:" + rng.choice(["", " "]) + gen_expr(rng, sc, want, depth + 1, py)
     if r < 0.87:
         if sc.reps and rng.random() < 0.25:
             # the repeat variable itself (a mapping of its attributes): only its existence / truth is used
@@ -344,7 +348,7 @@ def gen_expr(rng, sc, want=None, depth=0, py=None):
         elif q < 0.55:
             parts.append("${" + nodef(lambda: gen_path(rng, sc)) + "}")
         elif q < 0.65:
-            parts.append("${" + nodef(lambda: gen_expr(rng, sc, None, depth + 1)) + "}")
+            parts.append("${" + nodef(lambda: gen_expr(rng, sc, None, depth + 1, py)) + "}")
         elif q < 0.85:
             parts.append("$" + nodef(lambda: gen_path(rng, sc)) + " ")
         elif q < 0.93:
